@@ -1991,6 +1991,33 @@ pub fn emit_type(idx: &Index, ts: &TypeSpec, stats: &mut BTreeMap<String, usize>
     for a in &ts.attrs {
         out.push_str(&format!("#[{}]\n", a));
     }
+    // the serde attributes decide which (de)serializer each field goes through — i.e. the wire format — and are
+    // dropped from the verified text with the other attributes (E6); they are kept as one comment line after
+    // the type so that the layout pin (C18) sees them
+    let serde_of = |attrs: &Vec<Attribute>| -> Vec<String> {
+        attrs.iter().filter(|a| a.path().is_ident("serde")).map(|a| a.to_token_stream().to_string().split_whitespace().collect::<Vec<_>>().join("")).collect()
+    };
+    let mut serde_notes: Vec<String> = vec![];
+    match &item {
+        Item::Struct(s) => {
+            for a in serde_of(&s.attrs) { serde_notes.push(format!("container {}", a)); }
+            for (i, f) in s.fields.iter().enumerate() {
+                let n = f.ident.as_ref().map(|x| x.to_string()).unwrap_or_else(|| i.to_string());
+                for a in serde_of(&f.attrs) { serde_notes.push(format!("{} {}", n, a)); }
+            }
+        }
+        Item::Enum(e) => {
+            for a in serde_of(&e.attrs) { serde_notes.push(format!("container {}", a)); }
+            for v in e.variants.iter() {
+                for a in serde_of(&v.attrs) { serde_notes.push(format!("{} {}", v.ident, a)); }
+                for (i, f) in v.fields.iter().enumerate() {
+                    let n = f.ident.as_ref().map(|x| x.to_string()).unwrap_or_else(|| i.to_string());
+                    for a in serde_of(&f.attrs) { serde_notes.push(format!("{}.{} {}", v.ident, n, a)); }
+                }
+            }
+        }
+        _ => {}
+    }
     match &mut item {
         Item::Struct(s) => {
             s.attrs.clear();
@@ -2029,6 +2056,11 @@ pub fn emit_type(idx: &Index, ts: &TypeSpec, stats: &mut BTreeMap<String, usize>
         _ => {}
     }
     out.push('\n');
+    if !serde_notes.is_empty() {
+        // placed on the line after the "extracted from" header
+        let nl = out.find('\n').unwrap_or(0);
+        out.insert_str(nl + 1, &format!("// serde attributes (dropped by E6, pinned by C18): {}\n", serde_notes.join(" ; ")));
+    }
     out
 }
 
